@@ -60,9 +60,23 @@ def obs_hdr(h):
         return f"(CHdr {hdr_lit(h)} (Some {L.nlist(enc)}) None)"
 
 
+_HISTORY = [0]
+
+
+def used_header(h):
+    """A header object with a history: every second one was the source of updated_with() calls before (a reply header derived from it, a
+    copy with other system bytes ...).  Deriving headers from a header must not change what is built from the header itself."""
+    obj = mk_header(h)
+    _HISTORY[0] += 1
+    if _HISTORY[0] % 2 == 0:
+        obj.updated_with(function=(h["function"] + 1) % 256, require_response=not h["w"], from_equipment=not h["r"])
+        obj.updated_with(system=(h["system"] + 1) % 2**32, stream=(h["stream"] + 1) % 128, device_id=(h["device_id"] + 1) % 32768, block=7, last_block=False)
+    return obj
+
+
 def obs_msg(h, body):
     try:
-        msg = SecsIMessage(mk_header(h), body)
+        msg = SecsIMessage(used_header(h), body)
         parts = []
         for blk in msg.blocks:
             try:
@@ -193,6 +207,15 @@ def gen_cases(rnd, tier):
         if rnd.random() < 0.3:
             order += split_py(dict(msgs[0][0][0], stream=5), body_of(300, rnd))
         lits.append(("reasm", obs_reasm(order)))
+    # many transactions open at the same time (17 .. 40 two- and three-block messages): first blocks of all, then the rest, in two orders
+    for k in ([17, 33] if tier == "quick" else [17, 18, 24, 33, 40, 64]):
+        msgs = []
+        for m in range(k):
+            h = rand_hdr(rnd)
+            h["system"] = 1000 + m
+            msgs.append(split_py(h, body_of(rnd.choice([245, 300, 489]), rnd)))
+        order = [m[0] for m in msgs] + [b for m in (msgs if k % 2 else reversed(msgs)) for b in m[1:]]
+        lits.append(("reasm", obs_reasm(order)))
     return lits
 
 
@@ -285,7 +308,7 @@ def run(tier, replay=None):
     cov["rule"] = ("cases: CHdr = header fields (in range, boundary, out of range) through encode/decode; CMsg = (header, body) through SecsIMessage "
                    "splitting and SecsIBlock.encode for body lengths {0,1,243,244,245,487,488,489,732,976, random"
                    + ", 62465" + (", 62220, 244000, 976007" if tier == "thorough" else "") + "}; CDec = every byte position of encoded blocks replaced by "
-                   "several values (and left unchanged) through SecsIBlock.decode; CReasm = blocks of 1-4 messages with distinct system bytes interleaved at random "
+                   "several values (and left unchanged) through SecsIBlock.decode; CReasm = blocks of 1-4 messages (and of 17-40 messages open at the same time) with distinct system bytes interleaved at random "
                    "through Protocol._add_message_block; every case is distinct by construction (hash of the literal) and non-trivial (it exercises an encoder/decoder)")
     cov["correspondence"] = {k: v for k, v in stats.items() if k != "eval_errors"}
     cov["exhaustive_single_byte_corruptions"] = {"swept": swept, "accepted": len(accepted)}
